@@ -34,3 +34,46 @@ def union_branch_then_sentinel(nodes, value_sx, sentinel):
         return new, "(record (union 1 (array (blk 0 %s))) (long %d))" % (value_sx, sentinel), "Array"
     new = [G.Node("record", name="W__", fields=[("u", 2), ("s", 1)]), G.Node("long"), G.Node("union", variants=[3, 4]), G.Node("null")] + shift(nodes, 4)
     return new, "(record (union 1 %s) (long %d))" % (value_sx, sentinel), None
+
+def rename(nodes, suffix):
+    """the same node vector with every named type renamed (so that two generated schemas can live in one)"""
+    out = shift(nodes, 0)
+    for n in out:
+        if n.name is not None:
+            n.name = n.name + suffix
+    return out
+
+def ignored_then_container(nodes_s, value_sx, nodes_t, blocks_sx, is_map, sentinel):
+    """W {x: S, c: array<T> | map<T>, s: long}: x is what the target ignores, c and s are READ afterwards"""
+    base = 3
+    s_nodes = shift(nodes_s, base)
+    t_at = base + len(s_nodes)
+    cont = G.Node("map", values=t_at) if is_map else G.Node("array", items=t_at)
+    new = [G.Node("record", name="W__", fields=[("x", base), ("c", 2), ("s", 1)]), G.Node("long"), cont] + s_nodes + shift(rename(nodes_t, "_t"), t_at)
+    return new, "(record %s (%s%s) (long %d))" % (value_sx, "map" if is_map else "array", blocks_sx, sentinel)
+
+def ignoring_forms(rng, nodes, v, vg, sent):
+    """every way the target can ignore a value of schema `nodes`, each followed by a sentinel long that IS read:
+    -> [(wrapped nodes, evalue, target, expected value text, kind)] ; the expected text follows from the format alone (the
+    sentinel is the specification's reading of a long; what is ignored is reported as `ignored` / `unit`)"""
+    from common import hx
+    from present import type_name
+    W, S = hx("W__"), hx("s")
+    out = []
+    w, e = record_with_sentinel(nodes, v, sent)
+    out.append((w, e, "(struct %s (%s i64))" % (W, S), "(struct (%s (i64 %d)))" % (S, sent), "record-field-unknown"))
+    out.append((w, e, "(struct %s (%s ignored) (%s i64))" % (W, hx("x"), S), "(struct (%s ignored) (%s (i64 %d)))" % (hx("x"), S, sent), "record-field-ignored"))
+    items = [x for x in (vg.gen(0) for _ in range(rng.randint(0, 4))) if x is not None]
+    w, e = array_then_sentinel(nodes, vg.blocks(items), sent)
+    out.append((w, e, "(struct %s (%s i64))" % (W, S), "(struct (%s (i64 %d)))" % (S, sent), "array-unknown"))
+    out.append((w, e, "(struct %s (%s (seq ignored)) (%s i64))" % (W, hx("a"), S),
+                "(struct (%s (seq%s)) (%s (i64 %d)))" % (hx("a"), " ignored" * len(items), S, sent), "array-items-ignored"))
+    keys = ["k%d" % i for i in range(len(items))]
+    w, e = map_then_sentinel(nodes, vg.blocks(["(%s %s)" % (hx(k), x) for k, x in zip(keys, items)]), sent)
+    out.append((w, e, "(struct %s (%s (map str ignored)) (%s i64))" % (W, hx("m"), S),
+                "(struct (%s (map%s)) (%s (i64 %d)))" % (hx("m"), "".join(" ((str %s) ignored)" % hx(k) for k in keys), S, sent), "map-values-ignored"))
+    w, e, forced = union_branch_then_sentinel(nodes, v, sent)
+    vn = forced or type_name(w, w[2].variants[1])
+    out.append((w, e, "(struct %s (%s (enum %s (unit %s) (unit %s))) (%s i64))" % (W, hx("u"), hx("U"), hx("Null"), hx(vn), S),
+                "(struct (%s (enum %s unit)) (%s (i64 %d)))" % (hx("u"), hx(vn), S, sent), "union-unit-variant"))
+    return out
